@@ -63,10 +63,8 @@ func (executor *ParallelExecutor) Execute(ctx *ExecutionContext) (map[string]int
 	// a wait group so we know when we're done with all of the steps
 	stepWg := &sync.WaitGroup{}
 
-	// and a channel for errors
+	// the errors we collect are guarded by a mutex
 	errMutex := &sync.Mutex{}
-	errCh := make(chan error, maxResultBuffer)
-	defer close(errCh)
 
 	// a channel to close the goroutine
 	closeCh := make(chan bool)
@@ -89,6 +87,20 @@ func (executor *ParallelExecutor) Execute(ctx *ExecutionContext) (map[string]int
 	// the list of errors we have encountered while executing the plan
 	errs := graphql.ErrorList{}
 
+	// recordErr adds an error to the list and marks the step that produced it as finished
+	recordErr := func(err error) {
+		errMutex.Lock()
+		// if the error was a list
+		var errList graphql.ErrorList
+		if errors.As(err, &errList) {
+			errs = append(errs, errList...)
+		} else {
+			errs = append(errs, err)
+		}
+		errMutex.Unlock()
+		stepWg.Done()
+	}
+
 	// start a goroutine to add results to the list
 	go func() {
 		for {
@@ -107,25 +119,12 @@ func (executor *ParallelExecutor) Execute(ctx *ExecutionContext) (map[string]int
 
 				switch {
 				case payload.Err != nil: // response errors are the highest priority to return
-					errCh <- payload.Err
+					recordErr(payload.Err)
 				case insertErr != nil:
-					errCh <- insertErr
+					recordErr(insertErr)
 				default:
 					ctx.logger.Debug("Done. ", result)
 					// one of the queries is done
-					stepWg.Done()
-				}
-			case err := <-errCh:
-				if err != nil {
-					errMutex.Lock()
-					// if the error was a list
-					var errList graphql.ErrorList
-					if errors.As(err, &errList) {
-						errs = append(errs, errList...)
-					} else {
-						errs = append(errs, err)
-					}
-					errMutex.Unlock()
 					stepWg.Done()
 				}
 			// we're done
